@@ -103,6 +103,62 @@ def zero_is_a_value(ctx):
   parameters_reach(ctx, scope)
 
 
+def pad_to_bar(ctx, rule='PAD/next-bar-line'):
+  """"pad_end: the end is padded so that the length is a multiple of a bar": the closing statements of Melody / DrumTrack
+  extraction, evaluated for lengths 0, 1, 15, 16, 17, 32, 33 at 16 steps per bar, must ask for 0, 16, 16, 16, 32, 32, 48 steps (the
+  smallest multiple that holds the events), and for the unpadded length without pad_end."""
+  from sa import pathval, scenario
+  for fq in ('melodies_lib:Melody.from_quantized_sequence', 'drums_lib:DrumTrack.from_quantized_sequence'):
+    fi = ctx.func(fq)
+    tail = []
+    for st in reversed(fi.node.body):
+      simple = isinstance(st, (ast.Assign, ast.AugAssign)) or (isinstance(st, ast.Expr) and isinstance(st.value, ast.Call)) or \
+          (isinstance(st, ast.If) and all(isinstance(x, (ast.Assign, ast.AugAssign)) for x in st.body + st.orelse))
+      if not simple:
+        break
+      tail.insert(0, st)
+    cons = '%s: padded length' % fi.qualname
+    try:
+      ps = pathval.paths(tail, effects=True)
+    except pathval.PathError as e:
+      ps = None
+      why = 'cannot classify: the closing statements of %s are not a straight-line block (%s)' % (fi.qualname, e)
+    args = []
+    for conds, env, _end in ps or []:
+      calls = env.get(pathval.CALLS)
+      sl = [c for c in (calls.elts if calls is not None else []) if norm_text(c.func) == 'self.set_length' and len(c.args) == 1]
+      if sl:
+        args.append((conds, sl[-1].args[0]))
+    if not args:
+      why = why if ps is None else 'cannot classify: %s does not end with self.set_length(<length>) after straight-line statements' % fi.qualname
+      ctx.ob(rule, fi, fi.node, False, why, construct=cons, unknown=why)
+      continue
+    for pad in (1, 0):
+      for L in (0, 1, 15, 16, 17, 32, 33):
+        want = -(-L // 16) * 16 if pad else L
+        sub = {'len(self)': nf.rat(E(str(L))), 'len(self._events)': nf.rat(E(str(L))), 'steps_per_bar': nf.rat(E('16')), 'pad_end': nf.rat(E(str(pad)))}
+        got, stuck = None, None
+        for conds, arg in args:
+          vs = [scenario.fold_numeric(t, sub, dyadic=True) for t, _p in conds]
+          if any(v is None for v in vs):
+            stuck = ', '.join(norm_text(t) for (t, _p), v in zip(conds, vs) if v is None)
+            break
+          if all(bool(v) == p for v, (_t, p) in zip(vs, conds)):
+            got = scenario.fold_numeric(arg, sub, dyadic=True)
+            if got is None:
+              stuck = norm_text(arg)
+            break
+        c2 = '%s: length asked for with %d events, pad_end=%s' % (fi.qualname, L, bool(pad))
+        if got is None:
+          why = 'cannot classify: %s cannot be evaluated for a track of %d steps' % (stuck or 'the closing block', L)
+          ctx.ob(rule, fi, tail[-1], False, why, construct=c2, unknown=why)
+        else:
+          ok = got == want
+          ctx.ob(rule, fi, tail[-1], ok, 'a track of %d steps is set to %d steps' % (L, want) if ok else
+                 'with pad_end=%s and 16 steps per bar a track of %d steps is set to %s steps, not %d (%s)' % (
+                     bool(pad), L, got, want, 'the smallest whole number of bars that holds it' if pad else 'its own length'), construct=c2, definite=True)
+
+
 def parameters_reach(ctx, scope=None):
   from sa import pitfalls
   if scope is None:
@@ -116,6 +172,7 @@ def parameters_reach(ctx, scope=None):
 
 def run(ctx):
   zero_is_a_value(ctx)
+  pad_to_bar(ctx)
   rendered_back(ctx)
   order(ctx)
   roll_gap_index(ctx)
